@@ -267,6 +267,8 @@ class FluxInterface_0490(FluxInterface):
             return State.PENDING
         elif state == "S":      # Note this is short for SCHED and is also part of flux's pending virtual state
             return State.QUEUED
+        elif state == "P":      # PRIORITY, the third member of flux's pending virtual state
+            return State.QUEUED
         elif state == "R":
             return State.RUNNING
         elif state == "C":
